@@ -501,3 +501,20 @@ fire("C01", "bpe-data-not-extended", "R1.2b", E(MG, "BytePairEncodingVectorizer.
      "indices grow, data does not: the constructor raises on every transform")
 silent("C01", "bpe-data-ones", E(MG, "BytePairEncodingVectorizer.transform", "                data.extend([1 for i in range(len(row_indices))])\n", "                data.extend([1] * len(row_indices))\n"),
        "the same ones written as a repeated list")
+
+# --- C08: number of blocks (seeded r2_C08)
+_NB = "            n_rows = X.indptr.shape[0] - 1\n            n_blocks = (n_rows // block_size) + 1\n"
+fire("C08", "last-partial-block-dropped", "R8.2", E(LOT, "WassersteinVectorizer.transform", _NB, "            n_rows = X.indptr.shape[0] - 1\n            n_blocks = max(1, n_rows // block_size)\n"),
+     "seeded r2_C08: the rows of the last partial block are never embedded")
+silent("C08", "block-count-ceil", E(LOT, "WassersteinVectorizer.transform", _NB, "            n_rows = X.indptr.shape[0] - 1\n            n_blocks = (n_rows + block_size - 1) // block_size\n"),
+       "exact number of blocks")
+silent("C08", "block-count-np-ceil", E(LOT, "WassersteinVectorizer.transform", _NB, "            n_rows = X.indptr.shape[0] - 1\n            n_blocks = int(np.ceil(n_rows / block_size))\n"),
+       "exact number of blocks through np.ceil")
+
+# --- C12 / C08 / C01: preallocated result filled by block slices (the correct half of seeded r2_C08)
+_PRE = [E(LOT, "WassersteinVectorizer.transform", "            n_blocks = (n_rows // block_size) + 1\n\n            result_blocks = []\n            if self.method == \"LOT_exact\":\n                chunk_size = max(256, block_size // 64)\n\n                for i in range(n_blocks):",
+          "            n_blocks = (n_rows // block_size) + 1\n\n            result = np.zeros((n_rows, self.components_.shape[0]), dtype=np.float64)\n            if self.method == \"LOT_exact\":\n                chunk_size = max(256, block_size // 64)\n\n                for i in range(n_blocks):"),
+        E(LOT, "WassersteinVectorizer.transform", "                    result_blocks.append(block @ self.components_.T)\n", "                    result[block_start:block_end] = block @ self.components_.T\n", count=2),
+        E(LOT, "WassersteinVectorizer.transform", "                    result[block_start:block_end] = block @ self.components_.T\n            return np.vstack(result_blocks)\n", "                    result[block_start:block_end] = block @ self.components_.T\n            return result\n")]
+for _p in ("C12", "C08", "C01", "C02", "C13"):
+    silent(_p, "preallocated-result-block-slices", _PRE, "result preallocated and filled block by block through slices bounded by the block (behaviour-preserving)")
